@@ -21,7 +21,10 @@ EXPLANATION = (
     "that type; (D2) builder() answers Some under `struct_builder && Struct` and the struct emitter adds the builder item under "
     "the same setting with the same path; (D3) the projections iterate details.properties / details.variants / details.type_id "
     "without filtering and ident()/name() call the renderer the emitters use; (W1) templates and literals naming an external "
-    "crate are reachable only through IR cells whose every construction site sets the corresponding uses_* flag."
+    "crate are reachable only through IR cells whose every construction site sets the corresponding uses_* flag; (W2) the "
+    "renderers that recurse over the type graph (type_ident and its siblings: a method of TypeEntry calling itself on a child "
+    "entry) hand their context parameters — the type space, the module prefix, the scope tokens — to every recursive call "
+    "unchanged, so that the name reported for a nested type carries the same module prefix as the outer one."
 )
 ASSUMPTIONS = ["std's trait implementations for bool/integers/floats/String/Option/Vec/tuples/arrays/Box", "user-declared impls of replacement/conversion types are the user's claim"]
 
@@ -157,6 +160,7 @@ def norm(s):
 
 def run(facts, rep, tier):
     c = facts.impl
+    run_w2(facts, rep)
     ems = emit.find_emitters(facts, c)
     if not rep.floor("C17.D1", "item emitters (enum/struct/newtype)", len(ems), 3):
         return
@@ -376,3 +380,31 @@ def run(facts, rep, tier):
 def psrc_arm(gs):
     arms = [g[1].split("{")[0].split("(")[0] for g in gs if g[0] == "arm"]
     return "/".join(a.split("::")[-1] for a in arms) or "top"
+
+
+CONTEXT_TYPES = ("&TypeSpace", "&Option<String>", "Option<&str>", "&TokenStream")
+
+
+def run_w2(facts, rep):
+    from lib import Canon
+    c = facts.impl
+    n_sites = 0
+    for h in c.user_fns():
+        np_ = len(h.get("params", []))
+        cn = None
+        k = 0
+        for n, _ in walk(h["body"]):
+            if n.get("k") in ("call", "mcall") and n.get("fn") == h["fn"]:
+                cn = cn or Canon(c, h, 3)
+                args = ([n["recv"]] if n.get("k") == "mcall" else []) + list(n["args"])
+                params = [cn.param_name(i) for i in range(np_)]
+                for i, pn in enumerate(params):
+                    if pn.replace("$", "") not in CONTEXT_TYPES or i >= len(args):
+                        continue
+                    got = cn.r(args[i])
+                    n_sites += 1
+                    rep.ob("C17.W2", "context-passed-through:%s#%d/%s" % (h["fn"], k, pn.replace("$", "")), got == pn,
+                           "recursive call passes its %s on unchanged" % pn.replace("$", "") if got == pn else
+                           "the recursive call on a child entry passes `%s` instead of the caller's %s: the nested type is rendered in a different context (e.g. without the module prefix), so the reported/emitted path does not resolve" % (got[:60], pn.replace("$", "")), n.get("sp"))
+                k += 1
+    rep.floor("C17.W2", "context arguments at recursive renderer calls", n_sites, 40)
